@@ -13,7 +13,7 @@ import sys
 import tempfile
 
 V = '/verif'
-checks = [c['property_id'] for c in json.load(open(f'{V}/MANIFEST.json'))['checks']]
+checks = os.environ.get('CHECKS', '').split() or [c['property_id'] for c in json.load(open(f'{V}/MANIFEST.json'))['checks']]
 src = sys.argv[1] if len(sys.argv) > 1 else f'{V}/refactorings'
 work = tempfile.mkdtemp(prefix='verif-refmatrix-')
 snap = os.path.join(work, 'verif')
